@@ -6,6 +6,7 @@ import (
 	"math"
 	"reflect"
 	"sort"
+	"strconv"
 
 	"github.com/lyraproj/issue/issue"
 
@@ -432,6 +433,7 @@ func (av *Array) EachWithIndex(consumer px.IndexedConsumer) {
 }
 
 func (av *Array) EachSlice(n int, consumer px.SliceConsumer) {
+	assertSliceSize(n)
 	top := len(av.elements)
 	for i := 0; i < top; i += n {
 		e := i + n
@@ -439,6 +441,14 @@ func (av *Array) EachSlice(n int, consumer px.SliceConsumer) {
 			e = top
 		}
 		consumer(WrapValues(av.elements[i:e]))
+	}
+}
+
+// assertSliceSize panics with an illegal argument error unless the slice size given to EachSlice is
+// at least one (a size of zero would never advance)
+func assertSliceSize(n int) {
+	if n < 1 {
+		panic(illegalArgument(`EachSlice`, 0, strconv.Itoa(n)))
 	}
 }
 
